@@ -7,7 +7,7 @@ Every random choice comes from one SplitMix64 state, so a trace is reproducible 
   own    operation whose (projected) output the property under check speaks about
 """
 
-GEN_VERSION = 4
+GEN_VERSION = 5
 
 MASK64 = (1 << 64) - 1
 
@@ -212,6 +212,12 @@ class Trace:
 
     def probes(self, reg, kinds=("shape", "iter")):
         for k in kinds:
+            if k == "gkvs":
+                # exact-match lookups of every key the trace may have stored: a state probe that uses no iterator
+                ks = sorted(self.present[reg])[:48]
+                if ks:
+                    self.emit("gkvs %s %s" % (reg, " ".join(self.u.fmt(x, host=False) for x in ks)), "probe")
+                continue
             self.emit("%s %s" % (k, reg), "probe")
 
     def steps(self, reg, mutable=False, maxn=3):
@@ -266,7 +272,7 @@ def gen_C01(t, n):
             t.emit("iter %s" % reg, "own")
 
 
-def gen_obs(ops_for):
+def gen_obs(ops_for, probe_kinds=("shape", "iter")):
     """observer-type property: background history, probes, then owned observers"""
     def g(t, n):
         r = t.rng
@@ -275,7 +281,7 @@ def gen_obs(ops_for):
             for _ in range(r.below(4)):
                 t.bg()
             reg = r.weighted([("A", 6), ("B", 2), ("S", 2)])
-            t.probes(reg)
+            t.probes(reg, kinds=probe_kinds)
             for _ in range(1 + r.below(4)):
                 ops_for(t, reg)
     return g
@@ -315,7 +321,13 @@ def ops_C09(t, reg):
     if reg == "S":
         op = t.rng.pick(["get_spm_prefix", "cover_keys", "get_lpm_prefix"])
     else:
-        op = t.rng.pick(["get_spm", "get_spm_prefix", "cover", "cover_keys", "cover_values", "get_lpm"])
+        op = t.rng.pick(["get_spm", "get_spm_prefix", "cover", "cover_keys", "cover_values", "get_lpm", "get_lpm_prefix",
+                         "get_lpm_mut"])
+    if op == "get_lpm_mut":
+        # "longest-prefix match returns its last": every LPM entry point, next to the cover list of the same query
+        t.emit("cover %s %s" % (reg, q), "own")
+        t.emit("get_lpm_mut %s %s %d" % (reg, q, t.v()), "own")
+        return
     t.emit("%s %s %s" % (op, reg, q), "own")
 
 
@@ -661,7 +673,7 @@ def gen_C20(t, n):
 GENERATORS = {
     "C01": gen_C01,
     "C02": gen_obs(ops_C02),
-    "C03": gen_obs(ops_C03),
+    "C03": gen_obs(ops_C03, probe_kinds=("skel", "gkvs")),
     "C04": gen_obs(ops_C04),
     "C05": gen_setops(["union"]),
     "C06": gen_setops(["intersection"]),
@@ -669,8 +681,8 @@ GENERATORS = {
     "C08": gen_setops(["union", "difference"]),
     "C09": gen_obs(ops_C09),
     "C10": gen_obs(ops_C10),
-    "C11": gen_obs(ops_C11),
-    "C12": gen_obs(ops_C12),
+    "C11": gen_obs(ops_C11, probe_kinds=("skel", "iter")),
+    "C12": gen_obs(ops_C12, probe_kinds=("skel", "iter")),
     "C13": gen_C13,
     "C14": gen_C14,
     "C15": gen_C15,
